@@ -32,8 +32,15 @@ func (tc *Config) init() {
 func (prog *Progress) init() {
 	if prog.Cfg == nil {
 		prog.Cfg = &Config{}
+		prog.Cfg.init()
+	} else if prog.Cfg.Ctx == nil || prog.Cfg.LinkTargetNodePrototypeChooser == nil {
+		// Fill in the defaults on a private copy:
+		// the Config the caller handed us may be shared with other (concurrent) traversals,
+		// so it must only be read here.
+		cfg := *prog.Cfg
+		cfg.init()
+		prog.Cfg = &cfg
 	}
-	prog.Cfg.init()
 	if prog.Cfg.LinkVisitOnlyOnce {
 		prog.SeenLinks = make(map[datamodel.Link]struct{})
 	}
